@@ -848,7 +848,7 @@ def check_C20(ctx):
     spread_samples(ctx, cs, res)
 
 # ----------------------------------------------------------------------------
-HOSTILE = [('strpanic',), ('strnilptr',), ('nilmap',), ('nil',), F(float('nan')), F(float('inf')), F(float('-inf'))] + [('o', t) for t in range(21)] + \
+HOSTILE = [('strpanic',), ('strnilptr',), ('strselfpanic',), ('nilmap',), ('nil',), F(float('nan')), F(float('inf')), F(float('-inf'))] + [('o', t) for t in range(21)] + \
           [('str', b'abc'), ('strptr', b'1.0.0'), ('m', [(b'y', ('strpanic',))]), ('m', [(b'y', ('o', 3))])]
 
 def check_C07(ctx):
